@@ -390,3 +390,30 @@ Example time_tag_still_fires :
   monitor cmp cf st ERevoke rq (Obs "error" "" []) false "error" = Some time_tag /\
   run_endpoint cmp cf st ERevoke rq [] = Obs "invalid_client" "" [].
 Proof. split; vm_compute; reflexivity. Qed.
+
+
+(* ------------------------------------------------------------------ client credentials in the request URI *)
+(* at the token, revocation and device-authorization endpoints nothing in the request URI takes part *)
+Theorem uri_credentials_ignored_outside_par cmp cf st ep rq u houts :
+  is_par ep = false -> run_endpoint_uri cmp cf st ep rq u houts = run_endpoint cmp cf st ep rq houts.
+Proof. destruct ep; cbn; intros H; try reflexivity; discriminate. Qed.
+
+(* the clause "through a transport the client's registered authentication method permits" at full strength is false of
+   the faithful model of the pushed-authorization endpoint (and of the code: known finding
+   C10-par-credentials-from-request-uri): a request whose body and header entitle it to act as nobody is processed in
+   the name of a confidential client because the secret stands in the request URI *)
+Definition uri_witness_client : client := Cl "t" false true m_post "h" [].
+Definition uri_witness_body : request := Rq HNone "t" "" "" false no_as.
+Definition uri_witness_uri : request := Rq HNone "" "s3cr3t" "" false no_as.
+Definition uri_witness_cmp (h s : string) : bool := String.eqb h "h" && String.eqb s "s3cr3t".
+
+Theorem par_uri_credentials_refuted :
+  exists cmp cf st rq u houts,
+    spec_who cmp st rq = None /\
+    (exists c, In c st /\ c_public c = false /\
+       ob_res (run_endpoint_uri cmp cf st (EPAR false) rq u houts) = "" /\
+       ob_client (run_endpoint_uri cmp cf st (EPAR false) rq u houts) = c_id c).
+Proof.
+  exists uri_witness_cmp, (Cfg false [] 0), [uri_witness_client], uri_witness_body, uri_witness_uri, [].
+  split; [vm_compute; reflexivity|]. exists uri_witness_client. vm_compute. auto.
+Qed.
